@@ -1710,7 +1710,7 @@ Proof.
     assert (Hncli : s_cliconn s <> Some c).
     { intros Hc. destruct (gi_cli s G c Hc) as (_ & k0 & Hk0 & _ & _ & Hx & _). rewrite Hg in Hk0. injection Hk0 as <-. congruence. }
     pose proof (ginv_put_nc s c k k1 G Hg F6 F7 Hnc Hncli) as G1.
-    unfold close_cb. rewrite Hg1, F8. change (s_srv s1) with (s_srv s). rewrite Hs. cbn [negb].
+    unfold close_cb. rewrite Hg1, F8. change (s_srv s1) with (s_srv s). rewrite Hs. cbn [negb andb].
     destruct (thr =? 0) eqn:Et.
     + (* on the acceptor loop: removeConnectionInLoop runs inline *)
       unfold remove_in_loop. change (s_srv s1) with (s_srv s). rewrite Hs, Et, Hg1, F9, Hm. cbn [negb ret app].
@@ -2989,11 +2989,14 @@ Proof.
   apply arel_put_enq. left. exact Hs.
 Qed.
 
-Lemma agood_close_cb s thr c : cl0 s -> agood s (close_cb s thr c).
+(* the connection's owner, if it is the server, still exists *)
+Definition sv (s : sys) (c : nat) : Prop := forall k, getc s c = Some k -> k_ccb k = CbServer -> s_srv s = true.
+
+Lemma agood_close_cb s thr c : cl0 s -> sv s c -> agood s (close_cb s thr c).
 Proof.
-  intros Hcl. unfold close_cb. destruct (getc s c) as [k|] eqn:Hg; [|exact I]. destruct (k_ccb k) eqn:Ecb.
-  - destruct (s_srv s) eqn:Hs; [|exact I]. cbn [negb]. destruct (thr =? 0); [apply agood_remove_in_loop|].
-    apply arel_enq_srv, Hs.
+  intros Hcl Hsv. unfold close_cb. destruct (getc s c) as [k|] eqn:Hg; [|exact I]. destruct (k_ccb k) eqn:Ecb.
+  - rewrite (Hsv k Hg Ecb). cbn [negb andb]. destruct (thr =? 0); [apply agood_remove_in_loop|].
+    apply arel_enq_srv, (Hsv k Hg Ecb).
   - destruct (negb (s_cli s)); [exact I|]. destruct (negb (thr =? 0)); [exact I|]. destruct (s_cliconn s) as [c'|]; [|exact I].
     destruct (negb (c' =? c)); [exact I|]. cbn [ret agood].
     match goal with |- arel s (enq ?x 0 ?t) => apply (arel_trans s x _) end; [apply arel_same; reflexivity|].
@@ -3001,15 +3004,17 @@ Proof.
   - cbn [ret agood]. rewrite (Hcl c k Hg) by congruence. apply arel_enq0. reflexivity.
 Qed.
 
-Lemma agood_handle_close s thr c : cl0 s -> agood s (handle_close s thr c).
+Lemma agood_handle_close s thr c : cl0 s -> sv s c -> agood s (handle_close s thr c).
 Proof.
-  intros Hcl. unfold handle_close. destruct (getc s c) as [k|] eqn:Hg; [|exact I].
+  intros Hcl Hsv. unfold handle_close. destruct (getc s c) as [k|] eqn:Hg; [|exact I].
   destruct (negb (thr =? k_loop k)); [exact I|]. destruct (negb (k_closable k)); [exact I|].
   set (k1 := chan_update (s_readd s) (set_life k Disconnected (k_ups k) (S (k_downs k))) false false).
-  assert (Hcl1 : cl0 (put s c k1)).
-  { pose proof (chan_update_fields (s_readd s) (set_life k Disconnected (k_ups k) (S (k_downs k))) false false) as F. cbv zeta in F.
-    destruct F as (_ & _ & _ & _ & _ & F6 & _ & F8 & _). apply (cl0_put s c k k1 Hcl Hg); [exact F6|left; exact F8]. }
-  pose proof (agood_close_cb (put s c k1) thr c Hcl1) as H. unfold emit, bind.
+  pose proof (chan_update_fields (s_readd s) (set_life k Disconnected (k_ups k) (S (k_downs k))) false false) as F. cbv zeta in F.
+  destruct F as (_ & _ & _ & _ & _ & F6 & _ & F8 & _). fold k1 in F6, F8. cbn [set_life k_loop k_ccb] in F6, F8.
+  assert (Hcl1 : cl0 (put s c k1)) by (apply (cl0_put s c k k1 Hcl Hg); [exact F6|left; exact F8]).
+  assert (Hsv1 : sv (put s c k1) c).
+  { intros k2 Hk2 Hcb. rewrite getc_put_eq in Hk2 by (eapply getc_lt, Hg). injection Hk2 as <-. apply (Hsv k Hg). congruence. }
+  pose proof (agood_close_cb (put s c k1) thr c Hcl1 Hsv1) as H. unfold emit, bind.
   destruct (close_cb (put s c k1) thr c) as [[s2 o2]| |]; [|exact I|exact I].
   apply (arel_trans s (put s c k1) s2 (arel_put s c k1) H).
 Qed.
@@ -3096,13 +3101,15 @@ Proof.
     apply arel_enq_plain; reflexivity.
 Qed.
 
-Lemma agood_run_task s l t full wc : cl0 s -> agood s (run_task s l t full wc).
+Lemma agood_run_task s l t full wc : cl0 s -> (forall c, t = TForceClose c -> forall k, getc s c = Some k -> k_closable k = true -> k_ccb k = CbServer -> s_srv s = true) ->
+  agood s (run_task s l t full wc).
 Proof.
-  intros Hcl. destruct t; cbn [run_task].
+  intros Hcl Hsv. destruct t; cbn [run_task].
   - apply agood_establish.
   - apply agood_remove_in_loop.
   - apply agood_connect_destroyed.
-  - destruct (getc s c) as [k|]; [|exact I]. destruct (k_closable k); [apply agood_handle_close, Hcl|apply arel_refl].
+  - destruct (getc s c) as [k|] eqn:Hg; [|exact I]. destruct (k_closable k) eqn:Ecl; [|apply arel_refl].
+    apply (agood_handle_close s l c Hcl). intros k0 Hk0 Hcb. rewrite Hg in Hk0. injection Hk0 as <-. apply (Hsv c eq_refl k Hg Ecl Hcb).
   - apply arel_refl.
   - destruct (getc s c) as [k|]; [|exact I]. destruct (k_alive k); [apply arel_put|exact I].
   - match goal with |- agood s (if ?b then _ else _) => destruct b; [apply arel_start_read|exact I] end.
@@ -3113,15 +3120,18 @@ Proof.
   - destruct (getc s c) as [k|]; [|exact I]. destruct (k_alive k); [apply arel_put|exact I].
 Qed.
 
-Lemma agood_ev_step strict s c e : cl0 s -> agood s (ev_step strict s c e).
+Lemma agood_ev_step s c e : cl0 s -> agood s (ev_step true s c e).
 Proof.
-  intros Hcl. unfold ev_step. destruct (getc s c) as [k|]; [|exact I].
+  intros Hcl. unfold ev_step. destruct (getc s c) as [k|] eqn:Hg; [|exact I].
   match goal with |- agood s (if ?b then _ else _) => destruct b; [exact I|] end.
+  assert (Hsv : (match k_ccb k with CbServer => negb (s_srv s) | CbClient => negb (s_cli s) | CbDetail => false end) = false -> sv s c).
+  { intros Ho k0 Hk0 Hcb. rewrite Hg in Hk0. injection Hk0 as <-. rewrite Hcb in Ho. apply negb_false_iff, Ho. }
   destruct e.
   - destruct (k_rd k); [apply arel_refl|exact I].
-  - destruct (k_rd k); [|exact I]. match goal with |- agood s (if ?b then _ else _) => destruct b; [exact I|apply agood_handle_close, Hcl] end.
+  - destruct (k_rd k); [|exact I]. cbn [andb]. match goal with |- agood s (if ?b then _ else _) => destruct b eqn:Eo; [exact I|apply (agood_handle_close s _ c Hcl (Hsv eq_refl))] end.
   - destruct (k_rd k); [apply arel_refl|exact I].
-  - match goal with |- agood s (if ?b then _ else _) => destruct b; [exact I|apply agood_handle_close, Hcl] end.
+  - cbn [andb]. match goal with |- agood s (if ?b then _ else _) => destruct b eqn:Eo; [exact I|] end.
+    apply orb_false_iff in Eo as [_ Eo]. apply (agood_handle_close s _ c Hcl (Hsv Eo)).
   - apply arel_refl.
   - destruct (k_wr k); [|exact I]. destruct drained; [|apply arel_refl]. cbn [ret agood].
     destruct wc; [|apply arel_put]. apply arel_put_enq. right. split; reflexivity.
@@ -3134,10 +3144,10 @@ Lemma agood_on_lconn s c f : (forall k, agood s (f k)) -> agood s (on_lconn s c 
 Proof. intros H. unfold on_lconn. apply agood_on_conn. intros k. destruct (gone s (k_loop k)); [exact I|apply H]. Qed.
 
 (* every op except Swap / Run / EndBatch / SrvDestroy only appends to the queues *)
-Lemma agood_step_plain strict s o : cl0 s ->
-  match o with Swap _ | Run _ _ _ | EndBatch _ | SrvDestroy => True | _ => agood s (step strict s o) end.
+Lemma agood_step_plain s o : cl0 s ->
+  match o with Swap _ | Run _ _ _ | EndBatch _ | SrvDestroy => True | _ => agood s (step true s o) end.
 Proof.
-  intros Hcl. destruct o; try exact I; cbn [step].
+  intros Hcl. set (strict := true). destruct o; try exact I; cbn [step].
   - apply agood_finish, agood_accept.
   - apply agood_finish, agood_cli_connect.
   - apply agood_finish, agood_cli_destroy.
@@ -3245,7 +3255,7 @@ Qed.
 Lemma step_qinv s o : Inv s -> QInv s -> match step true s o with Ok (s', _) => QInv s' | _ => True end.
 Proof.
   intros [HI HH] HQ. pose proof (inv0_cl0 s HI) as Hcl.
-  pose proof (agood_step_plain true s o Hcl) as Hp.
+  pose proof (agood_step_plain s o Hcl) as Hp.
   destruct o; try (destruct (step true s _) as [[s1 o1]| |]; [apply (qinv_arel s s1 HQ Hp)|exact I|exact I]).
   - (* SrvDestroy *)
     cbn [step]. destruct (s_srv s) eqn:Hs; [|exact I]. cbn [negb andb].
@@ -3275,7 +3285,17 @@ Proof.
     assert (HQ1 : QInv (set_loop s l (popped v t rest))).
     { apply (qinv_set_loop s l v _ HQ Hv); [|apply (popped_in v t rest Hb)].
       intros Hs Hl _. cbn [popped q_pend]. apply (proj1 (proj2 HQ) Hs l v Hl Hv). unfold q_idle. rewrite Hb. reflexivity. }
-    pose proof (agood_finish _ _ l (agood_run_task (set_loop s l (popped v t rest)) l t full wc Hcl)) as Hf.
+    assert (Hsv : forall c, t = TForceClose c -> forall k, getc (set_loop s l (popped v t rest)) c = Some k -> k_closable k = true -> k_ccb k = CbServer -> s_srv s = true).
+    { intros c -> k Hg Ecl Hcb. change (getc s c = Some k) in Hg. pose proof (proj2 HI c k Hg) as HCk.
+      assert (Hin : In (TForceClose c) (q_all v)) by (unfold q_all; rewrite Hb; apply in_or_app; right; left; reflexivity).
+      destruct (gi_placed s (proj1 HI) l v _ Hv Hin) as [_ [_ (k1 & Hk1 & Hl1 & _)]]. cbn [task_conn] in Hk1. rewrite Hg in Hk1. injection Hk1 as <-.
+      assert (Hh : holds c (TForceClose c) = true) by (unfold holds; cbn; rewrite Nat.eqb_refl; reflexivity).
+      pose proof (strong_alive s l v _ c k HI Hv Hin Hh Hg) as Ha.
+      destruct (phase_up_cases s c k (ci_phase s c k HCk Ha) (proj1 (closable_up_k k) Ecl)) as (_ & _ & _ & [(_ & _ & B)|[(_ & _ & _ & _ & B)|(_ & _ & B & _)]]).
+      - unfold owner_alive in B. rewrite Hcb in B. exact B.
+      - exfalso. rewrite Hl1, (loop_todo_pop s l v _ rest Hv Hb) in B. cbn [first_life] in B. unfold life_of in B. cbn in B. rewrite Nat.eqb_refl in B. discriminate.
+      - congruence. }
+    pose proof (agood_finish _ _ l (agood_run_task (set_loop s l (popped v t rest)) l t full wc Hcl Hsv)) as Hf.
     destruct (finish (run_task (set_loop s l (popped v t rest)) l t full wc) l) as [[s1 o1]| |]; [|exact I|exact I].
     apply (qinv_arel _ s1 HQ1 Hf).
   - (* EndBatch *)
@@ -3579,7 +3599,7 @@ Qed.
 Lemma good_close_cb s thr c : good s (close_cb s thr c).
 Proof.
   unfold close_cb. destruct (getc s c) as [k|] eqn:Hg; [|exact I]. destruct (k_ccb k).
-  - destruct (negb (s_srv s)); [exact I|]. destruct (thr =? 0); [apply good_remove_in_loop|apply good_ret, lk_enq].
+  - destruct (negb (s_srv s) && (thr =? 0)); [exact I|]. destruct (thr =? 0); [apply good_remove_in_loop|apply good_ret, lk_enq].
   - destruct (negb (s_cli s)); [exact I|]. destruct (negb (thr =? 0)); [exact I|]. destruct (s_cliconn s) as [c'|]; [|exact I].
     destruct (negb (c' =? c)); [exact I|]. apply good_ret.
     apply (lk_trans _ (put s c (set_own k CbClient false (k_urefs k) (k_delayed k)))).
@@ -3838,10 +3858,13 @@ Qed.
 Definition count_down (c : nat) (o : list obs) : nat :=
   length (filter (fun x => match x with ODown _ c' => c' =? c | _ => false end) o).
 
+(* the io loop of the destroyed server takes its last drain and leaves (join() returns, ~TcpServer returns, the server is
+   freed) before the base loop runs the hop *)
 Definition w_server_lifetime : list op :=
-  [Accept; Swap 1; Run 1 true true; EndBatch 1; Ev 0 KEof; SrvDestroy; Swap 0; Run 0 true true].
+  [Accept; Swap 1; Run 1 true true; EndBatch 1; Ev 0 KEof; SrvDestroy; Swap 1; Run 1 true true; EndBatch 1; Swap 0; Run 0 true true].
 Definition w_server_lifetime2 : list op :=
-  [Accept; Swap 1; Run 1 true true; EndBatch 1; LForceClose 0; SrvDestroy; Swap 1; Run 1 true true].
+  [Accept; Swap 1; Run 1 true true; EndBatch 1; LForceClose 0; SrvDestroy; Swap 1; Run 1 true true; Run 1 true true; EndBatch 1;
+   Swap 0; Run 0 true true].
 Definition w_raw_functor : list op :=
   [Accept; XBegin 1 0 AStartRead; Ev 0 KEof; Swap 0; Run 0 true true; XEnq 1 false; EndBatch 0; Swap 0; Run 0 true true].
 Definition w_f19 : list op :=
